@@ -727,7 +727,7 @@ def gen_fail_ops(rng, case, count):
             elif r < 0.45:
                 name = rng.choice(['span', 'names', 'index', 'memo', 'strict', 'scratch'] if kind != 'container'
                                   else ['span', 'index', 'memo', 'strict', 'scratch'])   # an attribute / a taken storage key
-            elif r < 0.55 and aliases and on == 0 and not any(o2['k'] == 'addvar' and o2['name'] in aliases for o2 in ops):
+            elif r < 0.55 and aliases and on == 0 and not teligible and not any(o2['k'] == 'addvar' and o2['name'] in aliases for o2 in ops):
                 name = rng.choice(aliases)                                # an alias name (the mixin does not look)
             else:
                 name = rng.choice(NEW_VARS)
@@ -862,6 +862,13 @@ def run_fail_case(ctx, rep, case, tcases=None):
             rep.violate('failed-op-changed-state:class', f'the failed constructor ({ea}) changed class-level declarations: '
                         f'ALIASES / PREFERRED_NAMES / NAMES are now {cls_now}', jc)
             return 'class'
+        clash = [k2 for k2 in b.strip_self(m0) if hasattr(A, k2) or (k2.startswith('_') and k2[1:] in case['endo'] + case['exo'])] \
+            + [v for v in case['endo'] + case['exo'] if v in MIXIN_ATTRS]
+        if ea is not None and clash and (ep is None or ea != ep):
+            # refusing a map / a model whose names collide with attributes of the object is a conforming answer to
+            # the open findings KEY_ALIAS_IS_ATTRIBUTE / KEY_VAR_IS_MIXIN_ATTRIBUTE
+            rep.dist['failops-note:constructor-refuses-clashing-names'] += 1
+            return 'ctor-refuses-clashing-names'
         if ea != ep:
             rep.violate('plain-twin-diverges:constructor', f'{kind} constructor with keywords {list(case["kwargs"])} '
                         f'(strict={case["strict"]}): aliased {ea}, plain twin with the canonical keywords {ep} '
@@ -925,6 +932,17 @@ def run_fail_case(ctx, rep, case, tcases=None):
         else:
             rp = apply_fop(p, op, names_p, via_item=alias_read)
         failed = ra[0] == 'exc'
+        if k == 'addvar' and failed and rp[0] == 'ok' and (op['name'] in b.strip_self(m) or op['name'] in MIXIN_ATTRS):
+            # the mixin refuses a name that is an alias / one of its own attributes: a conforming answer to the open
+            # finding KEY_ADDVAR_ALIAS; the plain twin now has a variable more: the history ends here
+            after = observe_all(objs, 0, kinds, cache)
+            d = diff_abs(before, after)
+            if d:
+                rep.violate(f'failed-op-changed-state:{field_of(d[0])}', f'{where} raised {ra[1]} but changed {d[:4]} of the '
+                            f'object: {short(before.get(d[0]))} -> {short(after.get(d[0]))} (ALIASES={m})', jc)
+                return 'changed-state'
+            rep.dist['failops-note:add_variable-of-alias-name-refused'] += 1
+            return 'ok:alias-name-refused'
         n_failed += failed
         rep.dist[f'failops-op:{op["group"]}:{k}:' + (ra[1] if failed else 'ok')] += 1
         if failed:
@@ -961,6 +979,9 @@ def run_fail_case(ctx, rep, case, tcases=None):
             # classes is raised) is the hint's business, not the property's
             rep.dist['failops-note:unknown-name-rejected-with-another-class'] += 1
             cp = ca
+        if compare and ca != cp and k == 'addvar' and failed and rp[0] == 'exc' and \
+                (op['name'] in b.strip_self(m) or op['name'] in MIXIN_ATTRS):
+            cp = ca            # refused on both sides; the mixin may refuse the name before the value is looked at
         if compare and ca != cp:
             if ra[0] != rp[0]:
                 key = 'plain-twin-diverges:fails-only-' + ('aliased' if failed else 'plain')
